@@ -312,11 +312,6 @@ impl<'a> World<'a> {
         if !matches!(r, Ok(Ok(()))) {
             self.diverge("C04", "Protect", wher, "rr", "rtp", "", json!({"error": format!("{r:?}"), "idx": i}));
         }
-        // sender state (internal: EXT)
-        if let Some((roc, last, _)) = self.tx.verif_tx_state(ssrc) {
-            // the sender context follows the highest index it protected; compare with the true one if this is it
-            let _ = (roc, last);
-        }
         let mut x3 = None;
         let mut shape_ok = false;
         if let Some(rp) = RefProfile::from_name(self.pname).filter(|_| self.rtx.is_some()) {
@@ -873,6 +868,25 @@ fn run_edge(edge: &Value, lineno: u64, pname: &str, use_ref: bool, few: bool, sm
         }
     }
     let _ = (&st_before, &st_after);
+    // sender contexts against the model (internal values: EXT)
+    if let Some(rows) = exp["tx"].as_array() {
+        for row in rows {
+            let (k, hi, ri) = (row[0].as_i64().unwrap(), row[1].as_i64().unwrap(), row[2].as_i64().unwrap());
+            let Some(real) = w.ssrc_map.get(&k).copied() else { continue };
+            let m: St = if hi >= 0 {
+                let r = w.emb.idx(hi);
+                ((r >> 16) as u32, Some((r & 0xFFFF) as u16), ri as u32)
+            } else {
+                (0, None, ri as u32)
+            };
+            let o = w.tx.verif_tx_state(real).unwrap_or(ABSENT);
+            w.evals += 1;
+            if o != m {
+                w.diverge("EXT", "SenderState", "act", "rr", if act.rtcp { "rtcp" } else { "rtp" }, &act.kind,
+                    json!({"ssrc": k, "model": st_json(&m), "observed": st_json(&o), "op": act.op}));
+            }
+        }
+    }
 
     // probes
     let prop = if forged { "C05" } else { "C04" };
@@ -949,16 +963,24 @@ fn main() {
         }
         i += 1;
     }
-    let edges = read_ndjson(&args[1]);
+    use std::io::BufRead;
+    let file = std::fs::File::open(&args[1]).unwrap_or_else(|e| panic!("open {}: {e}", args[1]));
+    let lines = std::io::BufReader::with_capacity(1 << 20, file).lines();
     let mut out = NdjsonOut::create(&args[2]);
     let mut tot = [0u64; 5];
     let mut n_edges = 0u64;
     let mut n_div = 0u64;
     let mut seen_keys: std::collections::HashSet<String> = std::collections::HashSet::new();
-    for (ln, e) in edges.iter().enumerate() {
+    for (ln, line) in lines.enumerate() {
         if (ln as u64) % sn != si {
             continue;
         }
+        let line = line.expect("read line");
+        if line.trim().is_empty() {
+            continue;
+        }
+        let e: Value = serde_json::from_str(&line).unwrap_or_else(|err| panic!("{}:{}: bad json: {err}", args[1], ln + 1));
+        let e = &e;
         let ln = ln as u64 + line_base;
         n_edges += 1;
         // bit-exhaustive mode keeps packets near 60 bytes so that every position is visited
